@@ -65,7 +65,10 @@ impl Processor {
 impl NodeProcessor for Processor {
     fn process_expression(&mut self, expression: &mut Expression) {
         if let Expression::If(if_expression) = expression {
-            let else_result = if_expression.iter_branches().fold(
+            // build the chain from the last elseif branch so that conditions are
+            // still evaluated in their original order
+            let branches: Vec<_> = if_expression.iter_branches().collect();
+            let else_result = branches.into_iter().rev().fold(
                 if_expression.get_else_result().clone(),
                 |else_result, branch| {
                     self.convert_if_branch(
